@@ -3,7 +3,10 @@
 What TLA+ decides here (specs/Hostile/Grammar.tla): (a) LoopProgress - every
 iteration of every peer-driven loop consumes input or ends the loop, for
 peer-controlled parameters 0..3 (the pre-repair _flush_send_buf must be
-rejected); (b) the complete structured case space: SSH messages as typed
+rejected), and CountBounded - a count-prefixed list (agent identities,
+keyboard-interactive prompts/responses, EXT_INFO, SFTP names and extended
+attributes on both sides) costs work bounded by the entries received, not by
+the announced count (the error-swallowing variant must be rejected); (b) the complete structured case space: SSH messages as typed
 field sequences with one field mutated to an extreme / inconsistent value,
 cut after any field or with trailing bytes, in the phase where the endpoint
 parses them, and DER trees with every length and tag form.  TLC enumerates
@@ -56,6 +59,32 @@ def main(ctx):
     loops = cases(ctx, 'loops')
     cases(ctx, 'loops_unfixed', expect='LoopProgress')
     ctx.require(len(loops) == 120, f'loop cases: {len(loops)}')
+    # ---- count-prefixed lists ----
+    from harness.drivers import countloops as CL
+    counts = cases(ctx, 'counts', invariants=('Emit', 'CountBounded'))
+    cases(ctx, 'counts_swallow', invariants=('CountBounded',),
+          expect='CountBounded')
+    ctx.require(len(counts) == 8 * 5 * 3, f'count cases: {len(counts)}')
+    for site, cls, n in counts:
+        r = CL.run_case(site, cls, n)
+        ctx.count(('count', site, cls, n), nontrivial=cls != 'exact')
+        sig = {'module': 'Counts', 'site': site, 'count': cls, 'present': n}
+        rep = {'kind': 'count', 'site': site, 'count': cls, 'present': n}
+        if r['outcome'] == 'hang' or r['seconds'] > 1.5:
+            ctx.violation(sig, f'{site}: a list announcing '
+                          f'{CL.count_value(cls, n)} entries with {n} present '
+                          f'is not handled in bounded work: {r["outcome"]} '
+                          f'{r["detail"]} ({r["seconds"]:.1f} s)', replay=rep)
+        elif cls == 'exact' and r['outcome'] != 'ok':
+            ctx.divergence(f'count case {site} exact {n}: well-formed list '
+                           f'refused: {r["detail"]}')
+        elif cls != 'exact' and r['outcome'] != 'error':
+            ctx.divergence(f'count case {site} {cls} {n}: inconsistent list '
+                           f'accepted: {r["detail"]}')
+        if r['loop_exceptions']:
+            ctx.violation(dict(sig, loop=True),
+                          f'{site} {cls} {n}: exception reached the event '
+                          f'loop: {r["loop_exceptions"][0]}', replay=rep)
     # ---- messages ----
     H.FIELDS.update(fields_of_spec())
     for name, (_, _, vals) in H.TEMPLATES.items():
@@ -162,8 +191,8 @@ def main(ctx):
         'work bounds: 3 s watchdog per input, <= 2000 loop iterations and '
         '<= 4096 + 64*len(input) output bytes per packet (generous: only '
         'unbounded or super-linear behaviour trips)',
-        'SFTP and agent message parsers are exercised by C14 and C05; '
-        'known_hosts / authorized_keys line parsers by C17',
+        'SFTP request/reply parsing beyond the count-prefixed lists is '
+        'exercised by C14; known_hosts / authorized_keys line parsers by C17',
     ]
 
 
